@@ -574,3 +574,51 @@ def rule_render_pure(model: Model, rule_id: str = 'C08-R8') -> RuleResult:
             else:
                 r.ok()
     return r
+
+
+def rule_cause_rendered(model: Model, rule_id: str = 'C08-R9') -> RuleResult:
+    """C08: when a failure has an underlying exception, its text is part of the message in every context."""
+    r = RuleResult(rule_id, "a node's cause is rendered whenever it is present (no other condition: not the nesting, not inside_sum)", floor=2)
+    for q in sorted(error_node_classes(model)):
+        ci = model.cls(q)
+        if 'cause' not in error_fields(model, q):
+            continue
+        pe = ci.methods.get('print_error')
+        if pe is None:
+            continue
+        cfg = cfg_of(model, pe)
+        nz = Normalizer(model, pe, cfg)
+        me = pe.params[0]
+        r.instances += 1
+        r.analysed.add(pe.qualname)
+        none_tests = (f'{me}.cause is None', f'None is {me}.cause')
+        uses = []
+        for n in cfg.live_nodes():
+            if n.ast is None:
+                continue
+            if n.kind == 'cond' and nz.literal(n.ast, n)[0] in none_tests:
+                continue
+            roots = node_exprs(n)
+            if any(isinstance(x, ast.Attribute) and x.attr == 'cause' and isinstance(x.value, ast.Name) and x.value.id == me
+                   for root in roots for x in walk_no_nested(root)):
+                uses.append(n)
+        if not uses:
+            r.fail(pe.qualname, 'cause never rendered', pe.loc(), "the underlying exception never appears in the message")
+            continue
+        bad = []
+        for n in uses:
+            for (cid, lb) in cfg.conditions_of(n):
+                c = cfg.nodes[cid]
+                if c.kind != 'cond' or c.ast is None:
+                    continue
+                text, pos = nz.literal(c.ast, c)
+                if text in none_tests:
+                    continue
+                bad.append(('' if pos == (lb == 'T') else 'not ') + text)
+        r.sample({'node': ci.name, 'cause rendered when also': sorted(set(bad))})
+        if bad:
+            r.fail(pe.qualname, f"cause rendered only when {sorted(set(bad))}", pe.loc(uses[0].ast),
+                   "the underlying exception is left out of the message in some contexts (e.g. inside a union alternative), although the node carries it")
+        else:
+            r.ok()
+    return r
